@@ -231,7 +231,8 @@ def cases(tier, seed):
     out.append(_pe_case(1000 + i, eq, cfg, K, rng, tier, uneven=rng.random() < 0.85,
                         consts=_consts(rng, vary=rng.random() < 0.8),
                         scale=_scale_desc(rng) if rng.random() < 0.2 else None,
-                        tref=str(rng.choice(['random', 'random', 'constant', 'linear', 'tropopause'])),
+                        tref=str(rng.choice(['random', 'random', 'constant', 'linear', 'tropopause', 'cooling',
+                                             'isothermal_top', 'plateau_cooling'])),
                         extra_tracer=rng.random() < 0.5))
   for i in range(n_sw):
     n = int(rng.choice(trunc_q if tier == 'quick' else trunc_t))
